@@ -228,7 +228,9 @@ func (a *app) actions(topic, group string) partialmessages.PublishActionsFn[appP
 		return func(yield func(peer.ID, partialmessages.PublishAction) bool) {
 			for p, ps := range peerStates {
 				if errPeers[a.name(p)] {
-					if !yield(p, partialmessages.PublishAction{Err: errors.New("x04:" + a.name(p))}) {
+					// an action that carries an error AND data: nothing of it may be sent
+					if !yield(p, partialmessages.PublishAction{Err: errors.New("x04:" + a.name(p)), EncodedPartialMessage: encodeMsg(mine),
+						EncodedPartsMetadata: append([]byte(nil), mineB...)}) {
 						return
 					}
 					continue
